@@ -1013,6 +1013,7 @@ def run(ctx, replay=None):
                        "polarity, allocator, output dimensions, defaults, exception classes)%s"
                        % (" [changed]" if changed else ""), True)
     except c07_translate.TranslateError as e:
+        c07_translate.write_reference(core.COQDIR)     # never keep the parameters of a tree checked earlier
         ctx.obligation("C07/Gen.v regenerated from esutil/numpy_util.py", False, str(e))
         ctx.violation("translation of the structural parameters of the field operations failed (fail-closed): %s" % e,
                       {"kind": "translation", "error": str(e),
@@ -1021,6 +1022,11 @@ def run(ctx, replay=None):
     # 2. theorems (C07_source_* are re-checked against the regenerated Gen.v)
     built = core.proof_step(ctx, "C07", core.ALLOW_DISCRETE)
     if not built:
+        try:
+            ctx.notes.append("regenerated parameters that differ from the modelled ones: %s"
+                             % ", ".join(c07_translate.differences(params)))
+        except NameError:
+            pass
         # the model and the checkers do not depend on Gen.v: keep looking for a failing input
         ok, _log = core.coq_make(["theories/C07/Exec.vo"])
         if not ok:
